@@ -171,16 +171,16 @@ theorem boolSem_should_only {α : Type} (l : List α) (f : α → Bool) :
 
 /-! ### the side condition through `compile` -/
 
-theorem singleOkT_compileAny (cls : LeafCls) (scoring : Bool) (docs : List ADoc) (b : Bool)
-    (qs : List Query) : singleOkT (compileAny cls scoring docs b qs) 1 = true := by
+theorem singleOkT_compileAny (cls : LeafCls) (guard : Bool) (scoring : Bool) (docs : List ADoc) (b : Bool)
+    (qs : List Query) : singleOkT guard (compileAny cls guard scoring docs b qs) 1 = true := by
   match qs with
   | [] => simp [compileAny, singleOkT]
   | [q] => simp [compileAny, singleOkT]
   | q :: q' :: qs => simp [compileAny, singleOkT]
 
-theorem singleOkT_compileClauses (cls : LeafCls) (scoring : Bool) (docs : List ADoc) (b : Bool)
+theorem singleOkT_compileClauses (cls : LeafCls) (guard : Bool) (scoring : Bool) (docs : List ADoc) (b : Bool)
     (cs : List (Occur × Query)) (msm : Nat) :
-    singleOkT (compileClauses cls scoring docs b cs) msm = singleOk cs msm := by
+    singleOkT guard (compileClauses cls guard scoring docs b cs) msm = singleOk guard cs msm := by
   match cs with
   | [] => simp [compileClauses, singleOkT, singleOk]
   | [(o, q)] => cases o <;> simp [compileClauses, singleOkT, singleOk]
